@@ -23,6 +23,20 @@ pub struct Cb {
     /// unique; numerically smaller = higher priority (compared among timers
     /// resp. among polled callbacks)
     pub prio: u32,
+    /// optional cost curve (stand-alone callbacks only): any n consecutive
+    /// instances execute for at most `curve[n-1]` in total; `curve[0] == wcet`
+    pub cost_curve: Option<Vec<u64>>,
+}
+
+impl Cb {
+    /// The cost model presented to the analyses.
+    pub fn cost(&self) -> crate::model::cost::Cost {
+        match &self.cost_curve {
+            None => crate::model::cost::Cost::Scalar(self.wcet),
+            Some(c) if c.len() % 2 == 0 => crate::model::cost::Cost::Curve(c.clone()),
+            Some(c) => crate::model::cost::Cost::Extrap(c.clone()),
+        }
+    }
 }
 
 #[derive(Clone, Debug)]
@@ -44,6 +58,7 @@ impl Executor {
         crate::jobj! {
             "supply" => self.sup.to_json(),
             "callbacks_[wcet,timer,prio]" => Json::Arr(self.cbs.iter().map(|c| Json::Arr(vec![Json::from(c.wcet), Json::from(c.timer), Json::from(c.prio)])).collect()),
+            "cost_curves" => Json::Arr(self.cbs.iter().map(|c| Json::from(c.cost_curve.clone())).collect()),
             "chains" => Json::Arr(self.chains.iter().map(|c| crate::jobj!{"source" => c.source.to_json(), "callbacks" => c.cbs.iter().map(|x| *x as u64).collect::<Vec<u64>>()}).collect())
         }
     }
@@ -51,6 +66,10 @@ impl Executor {
         let mut w = self.sup.words().to_vec();
         for c in &self.cbs {
             w.extend([c.wcet, c.timer as u64, c.prio as u64]);
+            if let Some(cc) = &c.cost_curve {
+                w.push(77);
+                w.extend(cc.iter().copied());
+            }
         }
         for ch in &self.chains {
             ch.source.words(&mut w);
@@ -163,9 +182,15 @@ pub fn make_plan(
     for ch in ex.chains.iter().enumerate() {
         let n = arrivals[ch.0].len();
         for cb in &ch.1.cbs {
-            exec[*cb] = (0..n)
-                .map(|_| if full_cost || rng.chance(1, 2) { ex.cbs[*cb].wcet } else { rng.range(1, ex.cbs[*cb].wcet) })
-                .collect();
+            let mut hist: Vec<u64> = Vec::with_capacity(n);
+            for _ in 0..n {
+                let cap = match &ex.cbs[*cb].cost_curve {
+                    Some(c) => crate::sim::uni::curve_budget(c, &hist).clamp(1, ex.cbs[*cb].wcet),
+                    None => ex.cbs[*cb].wcet,
+                };
+                hist.push(if full_cost || rng.chance(1, 2) { cap } else { rng.range(1, cap) });
+            }
+            exec[*cb] = hist;
         }
     }
     let total_work: u64 = exec.iter().flatten().sum();
@@ -306,6 +331,15 @@ pub fn validate(ex: &Executor, plan: &Plan, log: &Log) -> Result<(Times, bool), 
         for cb in &ch.cbs {
             if plan.exec[*cb].len() != merged.len() || plan.exec[*cb].iter().any(|e| *e < 1 || *e > ex.cbs[*cb].wcet) {
                 return Err(format!("callback {}: illegal execution times", cb));
+            }
+            if let Some(c) = &ex.cbs[*cb].cost_curve {
+                for len in 1..=c.len() {
+                    for w in plan.exec[*cb].windows(len) {
+                        if w.iter().sum::<u64>() > c[len - 1] {
+                            return Err(format!("callback {}: {} consecutive instances execute for {:?}, more than the cost curve allows ({})", cb, len, w, c[len - 1]));
+                        }
+                    }
+                }
             }
         }
     }
